@@ -42,7 +42,7 @@ SHRINK = ["aborts", "post"]
 def plan(tier):
     if tier == "thorough":
         return {"cases": 1500, "timeout": 1500, "wall_budget": 1700, "recheck": 4, "nproc": 6}
-    return {"cases": 80, "timeout": 600, "wall_budget": 120, "recheck": 2, "nproc": 6}
+    return {"cases": 80, "timeout": 600, "wall_budget": 200, "recheck": 2, "nproc": 6}
 
 def _gen_abort(rng, jobs):
     k = rng.choice(["script-exit", "script-exit", "script-kill", "script-kill-only", "bob-kill", "bob-kill", "bob-kill", "sigint"])
@@ -338,7 +338,7 @@ def _directed_url(tier):
     import random
     rng = random.Random(5051)
     out = []
-    want = 18 if tier == "thorough" else 6
+    want = 18 if tier == "thorough" else 4
     tries = 0
     while len(out) < want and tries < 200:
         tries += 1
